@@ -36,7 +36,7 @@ func isVFSPtr(t types.Type) bool {
 	if !ok {
 		return false
 	}
-	n, ok := p.Elem().(*types.Named)
+	n, ok := types.Unalias(p.Elem()).(*types.Named)
 	return ok && n.Obj().Name() == "VFS" && n.Obj().Pkg() != nil && n.Obj().Pkg().Path() == modPath+"/filesystem"
 }
 
